@@ -43,6 +43,7 @@ def special_programs():
         "function f(){ return `" + "${a}" * 300 + "`; }",
         "function f(){ const s = '" + "x" * 200000 + "'; return s + a; }",
         "function f(){ " + "{ " * 100 + "a += b;" + " }" * 100 + " }",
+        "const re = new RegExp;\nconst s = 'some literal text';", "{ new RegExp, new Foo, new (a.b), new a.b.c, new new X; require; new require; }", "new RegExp\n('a literal here')",
         "{ String.prototype.substring.apply(); }", "function f(){ return this.handler.call(); }", "{ o.p.apply(a); o.p.apply(a, b, c); o.p.call(...r); }",
         "{ ''.concat.call(); [].concat.apply(); (a).b.c.d.call(); super.x.call(); }", "class A extends B { m(){ super.trim.call(a); super.concat.apply(a, [b]); } }",
         "{ a?.(); a?.b?.(); a?.[b]?.trim?.(); (a?.b).trim(); new (a?.trim)(); }", "{ require(); new RegExp(); require(...a); new RegExp(...a); }",
